@@ -6,6 +6,7 @@ mod c10;
 mod common;
 mod core_props;
 mod derived;
+mod hist_props;
 mod io_props;
 mod mem_props;
 mod universe;
@@ -54,13 +55,26 @@ fn main() {
 		"C02" => core_props::c02(&ctx),
 		"C03" => core_props::c03(&ctx),
 		"C04" => c04::c04(&ctx),
+		"C05" => {
+			// the hand-written derived types of the static universe under the derive monitors
+			let mut rep = monitor::report::Report::new("C05");
+			let types: Vec<monitor::ops::TypeOps> = ctx.my_types().into_iter().filter(|o| o.has_tag("derived")).cloned().collect();
+			let defs: Vec<&str> = types.iter().map(|o| o.name).collect();
+			let args = monitor::suite::SuiteArgs { prop: "C05".into(), seed: ctx.seed, values: ctx.budget(300, 6000), out: ctx.out.clone() };
+			monitor::suite::run_types(&mut rep, &types, &defs, &args);
+			common::finish(&ctx, &rep);
+		},
+		"C06" => hist_props::c06(&ctx),
 		"C07" => io_props::c07(&ctx),
 		"C08" => io_props::c08(&ctx),
 		"C09" => mem_props::c09(&ctx),
 		"C10" => c10::c10(&ctx),
 		"C11" => mem_props::c11(&ctx),
 		"C12" => mem_props::c12(&ctx),
+		"C13" => hist_props::c13(&ctx),
 		"C14" => io_props::c14(&ctx),
+		"C15" => hist_props::c15(&ctx),
+		"C16" => hist_props::c16(&ctx),
 		"C18" => io_props::c18(&ctx),
 		"C19" => io_props::c19(&ctx),
 		p => {
